@@ -91,6 +91,16 @@ fn unary_cases() -> &'static Vec<String> {
         for n in 0..=25 {
             v.push(format!("{}!", n));
         }
+        // every composition of two unary forms (a pair of operations that cancels numerically need not cancel in the
+        // type: -(-MIN) is a Float)
+        let forms = ["floor({})", "ceil({})", "round({})", "trunc({})", "abs({})", "sgn({})", "⌊{}⌋", "⌈{}⌉", "-{}", "-({})", "({})²", "+{}", "({})!"];
+        for a in operand_pool() {
+            for f in forms {
+                for g in forms {
+                    v.push(f.replace("{}", &g.replace("{}", a)));
+                }
+            }
+        }
         v
     })
 }
@@ -114,7 +124,7 @@ impl Prop for C09Prop {
         "C09"
     }
     fn rule(&self) -> String {
-        "Well-formed eval_number expressions over + - * / % ^ pow mod, unary minus, abs sgn, floor ceil round trunc (and ⌊⌋ ⌈⌉), superscripts, n!. Exhaustive: every binary operator x (Integer pool ∪ Float pool ∪ NaN/inf ∪ @ with every placeholder)^2, every unary/rounding form x pool ∪ {k+0.5, k+-0.4, k.49999999999999994 : k=-3..3}, n! for n=0..25; long chains of 2..512 operands (i64::MAX+1+0+…+(-2): an intermediate overflow must turn the sum into a Float for good; 1e16+1.0+1.0…); random typed trees of depth <=5 beyond. Oracle: typed reference evaluator implementing C09 literally (Integer steps in i128; fits => Integer(exact), variant and value asserted; otherwise Float of the double operation; any Float operand => numeric value of the IEEE operation; rounding functions => numeric value of the rounded integer; Integer exponents outside 0..2^32-1 unspecified). non-trivial = the reference result is a Float/numeric value, or has magnitude >= 2^53, or the input uses a rounding function on a Float; distinct by (input, placeholder).".into()
+        "Well-formed eval_number expressions over + - * / % ^ pow mod, unary minus, abs sgn, floor ceil round trunc (and ⌊⌋ ⌈⌉), superscripts, n!. Exhaustive: every binary operator x (Integer pool ∪ Float pool ∪ NaN/inf ∪ @ with every placeholder)^2, every unary/rounding form x pool ∪ {k+0.5, k+-0.4, k.49999999999999994 : k=-3..3}, n! for n=0..25, every composition of two unary forms (13 x 13) x pool; long chains of 2..512 operands (i64::MAX+1+0+…+(-2): an intermediate overflow must turn the sum into a Float for good; 1e16+1.0+1.0…); random typed trees of depth <=5 beyond. Oracle: typed reference evaluator implementing C09 literally (Integer steps in i128; fits => Integer(exact), variant and value asserted; otherwise Float of the double operation; any Float operand => numeric value of the IEEE operation; rounding functions => numeric value of the rounded integer; Integer exponents outside 0..2^32-1 unspecified). non-trivial = the reference result is a Float/numeric value, or has magnitude >= 2^53, or the input uses a rounding function on a Float; distinct by (input, placeholder).".into()
     }
     fn subs(&self, tier: Tier) -> Vec<Sub> {
         vec![
